@@ -247,6 +247,12 @@ def decode (inp : Bytes) : Option JVal :=
   | some (v, r) => if skipWs r = [] then some v else none
   | none => none
 
+/-- the lines of a JSON-lines stream: every chunk up to and including a LF (a last unterminated chunk is kept) -/
+def splitLines : Bytes → Bytes → List Bytes
+  | [], [] => []
+  | [], cur => [cur.reverse]
+  | c :: r, cur => if c = 10 then (10 :: cur).reverse :: splitLines r [] else splitLines r (c :: cur)
+
 /-- RFC 8259 §8.1 + §2: a *valid JSON text* is well-formed UTF-8 that parses -/
 def validText (inp : Bytes) : Bool := Utf8.valid inp && (decode inp).isSome
 
